@@ -65,7 +65,7 @@ def build(desc: dict) -> CombDesign:
         bits = desc["w"]
         pw = max(1, (bits - 1).bit_length())
         s, e = Signal(pw), Signal(pw)
-        return CombDesign([s, e], {"cmask": (F.cyclic_mask(bits, s, e), bits)})
+        return CombDesign([s, e], {"cmask": (F.cyclic_mask(bits, s, e), None)})  # full returned value, not only `bits` bits
     if g == "modincr":
         x = Signal(desc["xw"])
         return CombDesign([x], {"modincr": (F.mod_incr(x, desc["m"]), None)})
@@ -90,7 +90,7 @@ def build(desc: dict) -> CombDesign:
         outs = {
             "sum": (F.sum_value(*args), None),
             "or": (F.or_value(*args), None),
-            "and": (F.and_value(*args), w),
+            "and": (F.and_value(*args), None if k > 0 else w),  # no values: the signed neutral C(-1) read at width w
         }
         if k > 0:
             outs["min"] = (F.min_value(*args), None)
@@ -119,6 +119,8 @@ def build(desc: dict) -> CombDesign:
 
 def vector(desc: dict, f: dict) -> list[int]:
     g = desc["g"]
+    if f["op"] == "len":
+        return [0]
     if g in ("unary", "modincr"):
         return [int(f["x"])]
     if g == "cmask":
@@ -145,7 +147,7 @@ def impl(case: Case) -> list[str]:
         res = evaluate(design, [vector(desc, f) for f in fs])
     except Exception as e:  # noqa: BLE001 - an exception of the real code is an observation
         return ["ok"] + [f"raise {type(e).__name__}"] * len(case.ops)
-    return ["ok"] + [f"r={r[f['op']]}" for f, r in zip(fs, res)]
+    return ["ok"] + [f"r={design.lens[f['f']]}" if f["op"] == "len" else f"r={r[f['op']]}" for f, r in zip(fs, res)]
 
 
 # --------------------------------------------------------------------------- property monitor
@@ -160,6 +162,9 @@ def _lowest(x: int, w: int) -> int:
 def reference(f: dict):
     """The documented function, in plain Python (independent of the Lean model)."""
     op = f["op"]
+    if op == "len":  # width of the returned Value: bits_for(w) / ceil_log2(w+1) / same as the operand
+        w = int(f["w"])
+        return w.bit_length() if f["f"] in ("popcount", "ctz", "clz") else w
     if op in UNARY:
         w, x = int(f["w"]), int(f["x"])
         full = (1 << w) - 1
@@ -271,7 +276,7 @@ def _rand_vals(w: int, rng, n: int) -> list[int]:
 
 
 def unary_ops(w: int, xs) -> list[str]:
-    return [f"op={op} w={w} x={x}" for x in xs for op in UNARY]
+    return [f"op=len f={op} w={w}" for op in UNARY] + [f"op={op} w={w} x={x}" for x in xs for op in UNARY]
 
 
 def cmask_ops(bits: int, pairs) -> list[str]:
@@ -481,6 +486,8 @@ def run(ctx: Check):
     for c in cases:
         for line in c.ops:
             ctx.count("op_" + line.split()[0][3:])
+    ctx.note("every helper result is observed at the width of the returned Value plus 4 bits (sign-extended), and "
+             "len(result) is compared with the documented width for popcount/ctz/clz/extract/clear/mask_*")
     cases.insert(0, Case(F11_WITNESS["cfg"], list(F11_WITNESS["ops"]), desc_of_cfg(F11_WITNESS["cfg"]), "directed"))
     lockstep(ctx, "bits", "C36", cases, impl, monitor, more_cases, nontrivial, procs=ctx.pick(4, None))
     ctx.exhaustive = False
